@@ -69,10 +69,15 @@ private:
         {
             m_max_search_space_size = m_matrix_operator.cols();
         }
+        // check_convergence(), compute() and the accessors read nev Ritz pairs: never start with fewer columns
+        if (m_initial_search_space_size < m_number_eigenvalues)
+        {
+            m_initial_search_space_size = m_number_eigenvalues;
+        }
         if (m_matrix_operator.cols() < m_initial_search_space_size + m_correction_size)
         {
-            m_initial_search_space_size = m_matrix_operator.cols() / 3;
-            m_correction_size = m_matrix_operator.cols() / 3;
+            m_initial_search_space_size = (std::max)(m_matrix_operator.cols() / 3, m_number_eigenvalues);
+            m_correction_size = (std::min)(m_matrix_operator.cols() / 3, m_matrix_operator.cols() - m_initial_search_space_size);
         }
     }
 
@@ -130,9 +135,9 @@ public:
     ///
     Index num_iterations() const { return niter_; }
 
-    Vector eigenvalues() const { return m_ritz_pairs.ritz_values().head(m_number_eigenvalues); }
+    Vector eigenvalues() const { return m_ritz_pairs.ritz_values().head((std::min)(m_number_eigenvalues, m_ritz_pairs.size())); }
 
-    Matrix eigenvectors() const { return m_ritz_pairs.ritz_vectors().leftCols(m_number_eigenvalues); }
+    Matrix eigenvectors() const { return m_ritz_pairs.ritz_vectors().leftCols((std::min)(m_number_eigenvalues, m_ritz_pairs.size())); }
 
     Index compute(SortRule selection = SortRule::LargestMagn, Index maxit = 100,
                   Scalar tol = 100 * Eigen::NumTraits<Scalar>::dummy_precision())
@@ -185,7 +190,7 @@ public:
 
             m_search_space.extend_basis(corr_vect);
         }
-        return (m_ritz_pairs.converged_eigenvalues()).template cast<Index>().head(m_number_eigenvalues).sum();
+        return (m_ritz_pairs.converged_eigenvalues()).template cast<Index>().head((std::min)(m_number_eigenvalues, m_ritz_pairs.converged_eigenvalues().size())).sum();
     }
 };
 
